@@ -264,36 +264,60 @@ impl Buffer {
     }
 
     fn scroll_up(&mut self, layer: usize) {
+        self.scroll_up_by(layer, 1);
+    }
+
+    /// Scrolls the editable area up by `num` lines in one pass (the cost does not depend on `num`).
+    fn scroll_up_by(&mut self, layer: usize, num: i32) {
         let start_line: i32 = self.get_first_editable_line();
         let end_line = self.get_last_editable_line();
+        if num <= 0 {
+            return;
+        }
+        let num = num.min((end_line - start_line + 1).max(1));
 
         let start_column = self.get_first_editable_column();
         let end_column = self.get_last_editable_column();
 
         let layer = &mut self.layers[layer];
         for x in start_column..=end_column {
-            (start_line..end_line).for_each(|y| {
-                let ch = layer.get_char((x, y + 1));
+            (start_line..=(end_line - num)).for_each(|y| {
+                let ch = layer.get_char((x, y + num));
                 layer.set_char((x, y), ch);
             });
+            // the last line is cleared and scrolls in from below (it can lie outside of the layer, then nothing is stored there)
             layer.set_char((x, end_line), AttributedChar::default());
+            let fill = layer.get_char((x, end_line));
+            ((end_line - num + 1)..end_line).for_each(|y| layer.set_char((x, y), fill));
         }
     }
 
     fn scroll_down(&mut self, layer: usize) {
+        self.scroll_down_by(layer, 1);
+    }
+
+    /// Scrolls the editable area down by `num` lines in one pass (the cost does not depend on `num`).
+    fn scroll_down_by(&mut self, layer: usize, num: i32) {
         let start_line: i32 = self.get_first_editable_line();
         let end_line = self.get_last_editable_line();
+        if num <= 0 {
+            return;
+        }
+        let num = num.min((end_line - start_line + 1).max(1));
 
         let start_column = self.get_first_editable_column();
         let end_column = self.get_last_editable_column();
 
         let layer = &mut self.layers[layer];
         for x in start_column..=end_column {
-            ((start_line + 1)..=end_line).rev().for_each(|y| {
-                let ch = layer.get_char((x, y - 1));
+            ((start_line + num)..=end_line).rev().for_each(|y| {
+                let ch = layer.get_char((x, y - num));
                 layer.set_char((x, y), ch);
             });
+            // the first line is cleared and scrolls in from above
             layer.set_char((x, start_line), AttributedChar::default());
+            let fill = layer.get_char((x, start_line));
+            ((start_line + 1)..(start_line + num)).for_each(|y| layer.set_char((x, y), fill));
         }
     }
 
